@@ -680,4 +680,170 @@ theorem runDecision_false_src (g : Graph) (hy : SemHyp g) (hO : OwnerNames g) (h
           · exact Or.inr (Or.inr ⟨r, hrs, hst⟩)
       · exact Or.inl hin
 
+/-! ## the start of a test -/
+
+structure SemCtx (g : Graph) (store0 : List (String × List (String × String))) : Prop where
+  hy : SemHyp g
+  hO : OwnerNames g
+  hF : FlatClass g
+  hI : InitShared store0
+
+/-- what C01 asks for at the start of `n` by `w` in state `sd`, for the setup edges of `n` in `gv`: every state `n` gets
+through an edge from a parsed parent relevant to `w` is in the shared pool, or in the pool of a worker whose location is
+contained in the `get_location` entry of its vm, or the parent's class has a result that did not pass -/
+def Avail (g gv : Graph) (sd : State) (w n : Nat) : Prop :=
+  ∀ e ∈ (gv.node n).setup, (g.node e.1).flat = false → relevant g w e.1 = true →
+    ∀ vs ∈ (g.node n).gets, vs.1 ∈ e.2 →
+      vs ∈ storeGet sd.store "shared" ∨
+      (∃ u, vs ∈ storeGet sd.store (g.worker u).id ∧ HasLoc (sd.nd n).getLoc vs.1 (workerLoc g u)) ∨
+      (∃ r ∈ sharedResults g sd e.1, r.status ≠ "PASS")
+
+/-- provenance of a `start` event of worker `w`: the test proper of an own node `n`, started in a state `sd` that
+satisfies both invariants, told the locations `(sd.nd n).getLoc`, with `Avail` on the graph visible then -/
+def StartSem (g : Graph) (H0 : List Nat) (store0 : List (String × List (String × String))) (w : Nat) (e : Event) : Prop :=
+  ∀ wid cname uid locs k, e = .start wid cname uid locs k →
+    ∃ n sd hid, cname = clsName g n .plain ∧ locs = (sd.nd n).getLoc ∧ n < g.nodes.length ∧ g.idIn w n = true ∧
+      (∀ h ∈ sd.hidden, h ∈ hid) ∧ (∀ h ∈ hid, h ∈ H0) ∧ Trv g H0 sd ∧ Sem g store0 sd ∧ Avail g (visH g hid) sd w n
+
+theorem StartSem.of_plain {g : Graph} {H0 : List Nat} {store0 : List (String × List (String × String))} {w : Nat} {e : Event}
+    (h : Plain e) : StartSem g H0 store0 w e :=
+  fun wid cname uid locs k he => absurd he (h.2 wid cname uid locs k)
+
+theorem grow_startTest (g : Graph) (s : State) (n w : Nat) (ph : Phase) (dir : Dir) : Grow s (startTest g s n w ph dir).1 := by
+  refine ⟨?_, fun m => ?_, fun m r hr => ?_⟩
+  · unfold startTest; dsimp only; split <;> rfl
+  · by_cases hph : ph = .pre
+    · subst hph; rfl
+    · rw [startTest_nonpre_fst g s n w ph dir hph]
+      refine nd_setNd_proj (·.finished) { s with nextTag := s.nextTag + 1 } n _ ?_ m
+      exact fun _ => rfl
+  · rcases startTest_results g s n w ph dir m with h | ⟨_, _, _, h⟩
+    · rw [h]; exact hr
+    · rw [h]; exact List.mem_append_left _ hr
+
+theorem startTest_plain_event (g : Graph) (s : State) (n w : Nat) (dir : Dir) :
+    ∀ e ∈ (startTest g s n w .plain dir).2.1,
+      ∃ uid k, e = .start (g.worker w).id (clsName g n .plain) uid (s.nd n).getLoc k := by
+  intro e he
+  unfold startTest at he
+  have e1 : (Phase.plain == Phase.pre) = false := rfl
+  simp only [e1, Bool.false_eq_true, if_false, List.mem_singleton] at he
+  have hgl : ∀ (f : NodeD → NodeD) (f' : WorkerD → WorkerD), (∀ d, (f d).getLoc = d.getLoc) →
+      ((({ s with nextTag := s.nextTag + 1 }.setNd n f).setWd w f').nd n).getLoc = (s.nd n).getLoc :=
+    fun f f' hf => nd_setNd_proj (·.getLoc) { s with nextTag := s.nextTag + 1 } n f hf n
+  rw [he, hgl]
+  · exact ⟨_, _, rfl⟩
+  · exact fun _ => rfl
+
+/-- `traverse_node` (entered on a free, setup-ready node of the worker's path) keeps `Sem`, and a start it emits has
+everything it gets from traversed parents at hand -/
+theorem traverseNode_sem (g : Graph) (H0 hid0 : List Nat) (ctx : Ctx g H0 hid0)
+    {store0 : List (String × List (String × String))} (sc : SemCtx g store0) (w : Nat) (s : State) (next prev : Nat)
+    (dir : Dir) (hsub : ∀ h ∈ s.hidden, h ∈ hid0) (hlen : s.nodes.length = g.nodes.length)
+    (hn : next < g.nodes.length) (hrel : relevant g w next = true)
+    (hocc : isOccupied (visH g hid0) s next w = false) (hready : isSetupReady (visH g hid0) s next w = true)
+    (t : Trv g H0 s) (j : Sem g store0 s) :
+    Sem g store0 (traverseNode (visH g hid0) s w next prev dir).1 ∧
+      ∀ e ∈ (traverseNode (visH g hid0) s w next prev dir).2.1, StartSem g H0 store0 w e := by
+  have hsn := sameNodes_visH g hid0
+  have hnr : NodeNR ((visH g hid0).node next) := by
+    have := sc.hy.noRemoval next hn
+    unfold NodeNR at this ⊢
+    rw [hsn.poolFilter, hsn.unsetMode]; exact this
+  unfold traverseNode
+  simp only [hocc, Bool.false_eq_true, if_false]
+  have hA : Upd g H0 w s (pullLocations (visH g hid0) (s.setNd next (fun d => { d with started := some w })) next) :=
+    (upd_setNd g H0 w s next (fun d => { d with started := some w }) (fun _ => rfl)).trans (upd_pullLocations g H0 w _ _ next)
+  have fA : Frame s (s.setNd next (fun d => { d with started := some w })) := frame_setNd s next _ (fun _ => rfl) (fun _ => rfl)
+  have fB : Frame s (pullLocations (visH g hid0) (s.setNd next (fun d => { d with started := some w })) next) :=
+    fA.trans (frame_pullLocations _ _ next)
+  cases hd : runDecision (visH g hid0) (pullLocations (visH g hid0) (s.setNd next (fun d => { d with started := some w })) next) next w with
+  | error e => exact ⟨j.frame fB, fun e he => by simp at he⟩
+  | ok r =>
+    obtain ⟨run, s1, evs⟩ := r
+    have h1 : Upd g H0 w s s1 := hA.trans (upd_runDecision g H0 w _ _ next w run s1 evs hd)
+    have f1 : Frame s s1 := fB.trans (frame_runDecision _ _ next w run s1 evs hd)
+    have hrd := runDecision_events _ _ next w run s1 evs hd
+    have j1 : Sem g store0 s1 := j.frame f1
+    have hlen1 : s1.nodes.length = g.nodes.length := h1.nodesLen.trans hlen
+    have hevs : ∀ e ∈ evs, StartSem g H0 store0 w e := fun e he => StartSem.of_plain (hrd.1 e he)
+    dsimp only
+    by_cases hrun : run = true
+    · subst hrun
+      simp only [if_true]
+      obtain ⟨hflat, hid⟩ := hrd.2 rfl
+      have hflat' : (g.node next).flat = false := by rw [← hsn.flat]; exact hflat
+      have hid' : g.idIn w next = true := by rw [← idIn_sameNodes hsn]; exact hid
+      have hroot : ((visH g hid0).node next).objectRoot = false := by
+        rw [hsn.objectRoot]; exact (sc.hy.plainNodes next hn hflat').2.2.2
+      simp only [hroot, Bool.false_eq_true, if_false]
+      have g3 := grow_startTest (visH g hid0) s1 next w .plain dir
+      have e3 := startTest_plain_event (visH g hid0) s1 next w dir
+      rcases hst : startTest (visH g hid0) s1 next w .plain dir with ⟨s2, evs2, f⟩
+      rw [hst] at g3 e3
+      refine ⟨j1.grow g3, fun e he => ?_⟩
+      rcases List.mem_append.mp he with he | he
+      · exact hevs e he
+      · obtain ⟨uid, k, hek⟩ := e3 e he
+        intro wid cname uid' locs k' hev
+        rw [hek] at hev
+        cases hev
+        refine ⟨next, s1, hid0, clsName_sameNodes hsn next .plain, rfl, hn, hid', fun h hh => hsub h (h1.hidden h hh),
+          ctx.sub0, t.upd sc.hO.uniq h1, j1, ?_⟩
+        -- availability
+        intro e hemem hfp hrelp vs hvs hvm
+        have heg : e ∈ (g.node next).setup := visH_setup_sub g hid0 next e hemem
+        have hpl : e.1 < g.nodes.length := ctx.wf.setup_lt next e heg
+        have hsets : vs ∈ (g.node e.1).sets := sc.hy.producerSets next hn e heg vs hvs hfp hvm
+        -- the worker dropped the parent class: its copy is traversed
+        have hdrop := (setup_ready_iff' (visH g hid0) s next w).mp hready e hemem (by rw [relevant_sameNodes hsn]; exact hrelp)
+        rw [hsn.cls, hsn.cls] at hdrop
+        obtain ⟨p', hp'l, hp'c, hp'r, hp'f⟩ := t.dropS _ _ w hdrop
+        have hp'flat : (g.node p').flat = false := by rw [sc.hF p' hp'l e.1 hpl hp'c]; exact hfp
+        have hsrc : Src g s e.1 vs :=
+          (j.fin p' hp'l hp'flat (by rw [hp'f hp'flat]; rfl) vs
+            (by rw [sc.hy.setsClass p' hp'l e.1 hpl hp'c]; exact hsets)).congr hp'l hpl hp'flat hfp hp'c
+        have hsrcA : Src g (s.setNd next (fun d => { d with started := some w })) e.1 vs := fA.grow.src hsrc
+        rcases hsrcA with h | ⟨u, hu, h⟩ | ⟨r, hr, h⟩
+        · left
+          rw [f1.store, ← fA.store]; exact h
+        · right; left
+          refine ⟨u, by rw [f1.store, ← fA.store]; exact h, ?_⟩
+          have hloc : workerLoc (visH g hid0) u ∈ locsOf (visH g hid0) (s.setNd next (fun d => { d with started := some w })) e.1 := by
+            unfold locsOf
+            rw [sharedResultWorkerIds_sameNodes hsn]
+            exact List.mem_cons_of_mem _ (List.mem_map.mpr ⟨u, hu, rfl⟩)
+          have hc := pullLocations_complete (visH g hid0) (s.setNd next (fun d => { d with started := some w })) next hflat
+            (by rw [nodes_length_setNd, hlen]; exact hn) e.1 e.2 hemem vs.1 hvm _ hloc
+          have hwl : workerLoc (visH g hid0) u = workerLoc g u := by unfold workerLoc; rw [hsn.worker]
+          rw [hwl] at hc
+          have hgl : (s1.nd next).getLoc =
+              ((pullLocations (visH g hid0) (s.setNd next (fun d => { d with started := some w })) next).nd next).getLoc := by
+            rcases runDecision_state _ _ next w true s1 evs hd with h' | h'
+            · rw [h']
+            · rw [h']; exact nd_disableRerun_proj (·.getLoc) (fun _ => rfl) _ next next
+          rw [hgl]; exact hc
+        · right; right
+          refine ⟨r, ?_, h⟩
+          rw [sharedResults_congr g s s1 e.1 f1.results, ← sharedResults_congr g s _ e.1 fA.results]
+          exact hr
+    · simp only [hrun, Bool.false_eq_true, if_false]
+      have hrunf : run = false := by simpa using hrun
+      subst hrunf
+      have jB : Sem g store0 (pullLocations (visH g hid0) (s.setNd next (fun d => { d with started := some w })) next) := j.frame fB
+      have hsrc : next < g.nodes.length → (g.node next).flat = false → ∀ vs ∈ (g.node next).sets, Src g s1 next vs := by
+        intro _ hfl vs hvs
+        rw [runDecision_sameNodes hsn] at hd
+        exact (frame_runDecision g _ next w false s1 evs hd).grow.src
+          (runDecision_false_src g sc.hy sc.hO sc.hF sc.hI _ jB next w hn hfl s1 evs hd vs hvs)
+      have j2 : Sem g store0 (finishTraverse s1 next w) := j1.finish next w hsrc
+      have f3 := frame_afterTraverse (visH g hid0) (finishTraverse s1 next w) w next prev dir hnr
+      have e3 := afterTraverse_plain (visH g hid0) (finishTraverse s1 next w) w next prev dir hnr
+      rcases hat : afterTraverse (visH g hid0) (finishTraverse s1 next w) w next prev dir with ⟨s2, evs2, f⟩
+      rw [hat] at f3 e3
+      refine ⟨j2.frame f3, fun e he => ?_⟩
+      rcases List.mem_append.mp he with he | he
+      · exact hevs e he
+      · exact StartSem.of_plain (e3 e he)
+
 end I2N.Trav
